@@ -57,6 +57,13 @@ type ecase struct {
 	Queries  []query    `json:"queries"`
 }
 
+const a2lScript = `#!/bin/sh
+while read a; do
+  echo "0x$a"
+  if [ "$a" = "ffffffffffffffff" ]; then echo '??'; echo '??:0'; else echo "s$a"; echo "src.c:7"; fi
+done
+`
+
 var (
 	run *vlib.Run
 	dir string
@@ -241,6 +248,68 @@ func nmCase(raw json.RawMessage, c *ecase, idx int, nmDir string) {
 	}
 }
 
+// the addr2line + nm path (no llvm-symbolizer): addr2line is asked for the link-time address, and the name it
+// gives is completed from the nm table, which must be consulted with the same address the caller passed
+func a2lCase(raw json.RawMessage, c *ecase, idx int, nmDir string) {
+	l := &ecase{Type: "EXEC", Layout: []seg{{Off: 0, Vaddr: 0, Filesz: 4096, Memsz: 4096, X: true}}}
+	path := filepath.Join(dir, fmt.Sprintf("a2lbin%d", idx))
+	if err := writeELF(path, l); err != nil {
+		run.Infra(err.Error())
+		return
+	}
+	defer os.Remove(path)
+	var tb bytes.Buffer
+	for i, s := range c.Table {
+		t := "T"
+		if s.Data {
+			t = "D"
+		}
+		fmt.Fprintf(&tb, "symbol_number_%d_at_%x %s %x %x\n", i, s.A, t, s.A, s.Size)
+	}
+	os.WriteFile(filepath.Join(nmDir, "table"), tb.Bytes(), 0o644)
+	oldPath := os.Getenv("PATH")
+	os.Setenv("PATH", nmDir) // no llvm-symbolizer anywhere: the addr2line path is taken
+	defer os.Setenv("PATH", oldPath)
+	bu := &binutils.Binutils{}
+	bu.SetTools("addr2line:" + nmDir + ",nm:" + nmDir)
+	f, err := bu.Open(path, 0x1000, 0x2000, 0, "")
+	if err != nil {
+		run.Violate("a2l", "a2l-open-error", err.Error(), raw, nil)
+		return
+	}
+	defer f.Close()
+	for _, q := range c.Queries {
+		run.Count(fmt.Sprintf("a2l|%v|%d", c.Table, q.Q))
+		fr, err := f.SourceLine(q.Q + 0x1000)
+		if err != nil {
+			run.Violate("a2l", "a2l-error", err.Error(), raw, nil)
+			continue
+		}
+		got := ""
+		if len(fr) > 0 {
+			got = fr[len(fr)-1].Func
+		}
+		plain := fmt.Sprintf("s%x", q.Q) // what the scripted addr2line answers for the link-time address
+		ok := got == plain && (len(c.Table) == 0 || q.Q < c.Table[0].A || q.Beyond)
+		for i, s := range c.Table {
+			if s.A != q.Best || q.Q < s.A {
+				continue
+			}
+			name := fmt.Sprintf("symbol_number_%d_at_%x", i, s.A)
+			if s.Data && q.Q >= s.A+s.Size {
+				if got == plain {
+					ok = true
+				}
+			} else if got == name {
+				ok = true
+			}
+		}
+		if !ok {
+			run.Violate("a2l", "a2l-lookup", fmt.Sprintf("table %v: SourceLine(%#x) (link address %#x) names %q; addr2line answered %q and the nm symbol with the greatest start <= the address starts at %#x", c.Table, q.Q+0x1000, q.Q, got, plain, q.Best), raw, nil)
+		}
+	}
+}
+
 func main() {
 	run = vlib.NewRun("C13")
 	var err error
@@ -251,7 +320,9 @@ func main() {
 	defer os.RemoveAll(dir)
 	nmDir := filepath.Join(dir, "tools")
 	os.MkdirAll(nmDir, 0o755)
-	os.WriteFile(filepath.Join(nmDir, "nm"), []byte("#!/bin/sh\ncat \""+filepath.Join(nmDir, "table")+"\"\n"), 0o755)
+	os.WriteFile(filepath.Join(nmDir, "nm"), []byte("#!/bin/sh\n/bin/cat \""+filepath.Join(nmDir, "table")+"\"\n"), 0o755)
+	// a scripted addr2line: echoes the address it is asked for and names the function after it
+	os.WriteFile(filepath.Join(nmDir, "addr2line"), []byte(a2lScript), 0o755)
 	run.EachCase(func(i int, raw json.RawMessage) {
 		var c ecase
 		if err := json.Unmarshal(raw, &c); err != nil {
@@ -268,11 +339,12 @@ func main() {
 				elfCase(raw, &c, i)
 			} else {
 				nmCase(raw, &c, i, nmDir)
+				a2lCase(raw, &c, i, nmDir)
 			}
 		}()
 		if i%80 == 0 {
 			run.Sample(json.RawMessage(raw))
 		}
 	})
-	run.Finish("cases = ElfLoad.tla: 8 segment layouts (ld-style page-aligned, lld-style segments sharing file pages, bss, executable segment starting mid page after read-only data, huge-page vaddr gap, executable segments with a zero-filled tail of several pages) x {ET_EXEC, ET_DYN with biases 0 / 5 / 77 pages, optionally plus a 47-bit constant} x page-granular splits of the executable mapping x addresses at segment and page edges, each translated through binutils.Open + ObjAddr in ascending and descending order on one ObjFile; symbol tables of 1-2 (thorough 3) symbols with duplicates, zero sizes, code and data x 12 lookup addresses through a fake nm; non-trivial = distinct (type, layout, mapping, address) / (table, query)")
+	run.Finish("cases = ElfLoad.tla: 8 segment layouts (ld-style page-aligned, lld-style segments sharing file pages, bss, executable segment starting mid page after read-only data, huge-page vaddr gap, executable segments with a zero-filled tail of several pages) x {ET_EXEC, ET_DYN with biases 0 / 5 / 77 pages, optionally plus a 47-bit constant} x page-granular splits of the executable mapping x addresses at segment and page edges, each translated through binutils.Open + ObjAddr in ascending and descending order on one ObjFile; symbol tables of 1-2 (thorough 3) symbols with duplicates, zero sizes, code and data x 12 lookup addresses through a fake nm, and through a scripted addr2line whose names are completed from the nm table (PATH emptied so that no llvm-symbolizer is found); non-trivial = distinct (type, layout, mapping, address) / (table, query)")
 }
